@@ -327,6 +327,8 @@ func ruleC16(w *World, r *Report) {
 
 	// ---- exported fields are imported and vice versa (packet genesis struct)
 	k.genesisFieldRule("C16.roundtrip")
+	k.relayerImportRule("C16.relayers")
+	k.exportAllRule("C16.export.all")
 
 	// ---- binary keys selected by segment count
 	nSplit := 0
